@@ -85,13 +85,13 @@ theorem ex_spec_pages :
 /-! ### launchDigest on an image that parses, stage by stage -/
 
 /-- validation errors surface unchanged (any product value) -/
-theorem launchDigest_validate_err_any (H : Bytes → Bytes) (hH : ∀ x, (H x).length = 48) (c : Cfg) (o : Opts)
+theorem launchDigestOld_validate_err_any (H : Bytes → Bytes) (hH : ∀ x, (H x).length = 48) (c : Cfg) (o : Opts)
     (hv : 1 ≤ o.vcpus) (fw : Bytes) (rb : ResetBlock) (secs : List Sec)
     (hp : extractFromFirmware true true fw = .ok (some rb, some secs)) (hfw : fw.length ≤ 2 ^ 32)
     (hrom : checkAlign (productHigh (c.width o.product)) (romBase fw.length) (fw.length % 2 ^ 32) = none)
     (e : String) (he : validateSections secs = .err e) :
-    launchDigest H c o fw = .err e := by
-  unfold launchDigest
+    launchDigestOld H c o fw = .err e := by
+  unfold launchDigestOld launchDigestBody
   rw [if_neg (by omega), hp]
   simp only
   unfold measureUefi
@@ -100,14 +100,14 @@ theorem launchDigest_validate_err_any (H : Bytes → Bytes) (hH : ∀ x, (H x).l
   rw [he]
 
 /-- errors of the section loop surface unchanged (any product value) -/
-theorem launchDigest_measure_err_any (H : Bytes → Bytes) (hH : ∀ x, (H x).length = 48) (c : Cfg) (o : Opts)
+theorem launchDigestOld_measure_err_any (H : Bytes → Bytes) (hH : ∀ x, (H x).length = 48) (c : Cfg) (o : Opts)
     (hv : 1 ≤ o.vcpus) (fw : Bytes) (rb : ResetBlock) (secs : List Sec)
     (hp : extractFromFirmware true true fw = .ok (some rb, some secs)) (hfw : fw.length ≤ 2 ^ 32)
     (hrom : checkAlign (productHigh (c.width o.product)) (romBase fw.length) (fw.length % 2 ^ 32) = none)
     (hok : validateSections secs = .ok ()) (e : String)
     (he : ∀ d, d.length = 48 → measureSections H (productHigh (c.width o.product)) secs d = .err e) :
-    launchDigest H c o fw = .err e := by
-  unfold launchDigest
+    launchDigestOld H c o fw = .err e := by
+  unfold launchDigestOld launchDigestBody
   rw [if_neg (by omega), hp]
   simp only
   unfold measureUefi
@@ -123,8 +123,9 @@ theorem launchDigest_validate_err (H : Bytes → Bytes) (hH : ∀ x, (H x).lengt
     (hw : WidthOK (c.width o.product)) (hv : 1 ≤ o.vcpus) (fw : Bytes) (rb : ResetBlock) (secs : List Sec)
     (hp : extractFromFirmware true true fw = .ok (some rb, some secs))
     (hrom : fw.length % 4096 = 0 ∧ fw.length ≤ 2 ^ 32) (e : String) (he : validateSections secs = .err e) :
-    launchDigest H c o fw = .err e :=
-  launchDigest_validate_err_any H hH c o hv fw rb secs hp hrom.2
+    launchDigest H c o fw = .err e := by
+  rw [SnpDigest.launchDigest_supported H c o fw (SnpDigest.widthOK_supported c _ hw)]
+  exact launchDigestOld_validate_err_any H hH c o hv fw rb secs hp hrom.2
     ((checkAlign_rom _ hw fw.length (by omega)).mpr hrom) e he
 
 theorem launchDigest_measure_err (H : Bytes → Bytes) (hH : ∀ x, (H x).length = 48) (c : Cfg) (o : Opts)
@@ -132,8 +133,9 @@ theorem launchDigest_measure_err (H : Bytes → Bytes) (hH : ∀ x, (H x).length
     (hp : extractFromFirmware true true fw = .ok (some rb, some secs))
     (hrom : fw.length % 4096 = 0 ∧ fw.length ≤ 2 ^ 32) (hok : validateSections secs = .ok ()) (e : String)
     (he : ∀ d, d.length = 48 → measureSections H (productHigh (c.width o.product)) secs d = .err e) :
-    launchDigest H c o fw = .err e :=
-  launchDigest_measure_err_any H hH c o hv fw rb secs hp hrom.2
+    launchDigest H c o fw = .err e := by
+  rw [SnpDigest.launchDigest_supported H c o fw (SnpDigest.widthOK_supported c _ hw)]
+  exact launchDigestOld_measure_err_any H hH c o hv fw rb secs hp hrom.2
     ((checkAlign_rom _ hw fw.length (by omega)).mpr hrom) hok e he
 
 /-- the section loop measures a well-formed prefix and then reports the error of the rest -/
@@ -255,7 +257,19 @@ theorem rejected_unknown_kind : launchDigest H genCfg o (fwOf vUnknown) = .err "
 
 end variants
 
-/-! ### a product value that is not a key of `bitWidth` -/
+/-! ### a product value that is not a key of `bitWidth`: refused by sev.LaunchDigest; what the pre-repair
+variant `launchDigestOld` did with it -/
+
+theorem genSupported_false (p : Nat) (hp : p ≠ 1 ∧ p ≠ 2) : genCfg.supported p = false := by
+  have h1 : (1 == p) = false := by simp; omega
+  have h2 : (2 == p) = false := by simp; omega
+  simp [Cfg.supported, genCfg, Gen.SevLayout.BitWidths, List.find?, h1, h2]
+
+/-- sev.LaunchDigest refuses every product value other than Milan and Genoa, for every image (no image is
+    parsed: the check precedes ExtractFromFirmware) -/
+theorem unsupported_rejected (H : Bytes → Bytes) (o : Opts) (hp : o.product ≠ 1 ∧ o.product ≠ 2) (hv : 1 ≤ o.vcpus)
+    (fw : Bytes) : launchDigest H genCfg o fw = .err "product" :=
+  SnpDigest.launchDigest_unsupported H genCfg o fw hv (genSupported_false _ hp)
 
 theorem genWidth_zero (p : Nat) (hp : p ≠ 1 ∧ p ≠ 2) : genCfg.width p = 0 := by
   have h1 : (1 == p) = false := by simp; omega
@@ -274,13 +288,13 @@ theorem wide_accepts (o : Opts) (hv : 1 ≤ o.vcpus) : Accepts o wideFw exRb wid
   simp only [wideSecs, List.mem_cons, List.not_mem_nil, or_false] at hs
   rcases hs with rfl | rfl | rfl | rfl <;> exact ⟨by unfold KindKnown; decide, by decide⟩
 
-/-- witness: an 8 KiB image all of whose ranges have two pages is measured for an unsupported product, with
-    every VMSA page at guest-physical address 0 -/
+/-- witness: an 8 KiB image all of whose ranges have two pages WAS measured for an unsupported product (the
+    pre-repair variant), with every VMSA page at guest-physical address 0 -/
 theorem wide_digest_unsupported (H : Bytes → Bytes) (hH : ∀ x, (H x).length = 48) (hc : CfgIsSpec genCfg) (o : Opts)
     (hp : o.product ≠ 1 ∧ o.product ≠ 2) (hv : 1 ≤ o.vcpus) :
-    launchDigest H genCfg o wideFw =
+    launchDigestOld H genCfg o wideFw =
       .ok (Spec.SnpLaunch.snpSpec H wideFw (wideSecs.map toSpec) 0x80B004 o.vcpus.toNat 0) :=
-  (SnpAnyProduct.launchDigest_width_zero H hH genCfg hc o (genWidth_zero _ hp) wideFw (by rw [wide_length]; decide) _).mpr
+  (SnpAnyProduct.launchDigestOld_width_zero H hH genCfg hc o (genWidth_zero _ hp) wideFw (by rw [wide_length]; decide) _).mpr
     ⟨exRb, wideSecs, wide_accepts o hv, by rw [wide_length]; decide, by decide, rfl⟩
 
 /-- the same image on a supported product: the chain with the VMSA pages at the product's highest page -/
@@ -292,20 +306,20 @@ theorem wide_digest_supported (H : Bytes → Bytes) (hH : ∀ x, (H x).length = 
     ⟨exRb, wideSecs, wide_accepts o hv, rfl⟩
 
 /-- an error of the ROM range check surfaces unchanged (any product value) -/
-theorem launchDigest_rom_err (H : Bytes → Bytes) (c : Cfg) (o : Opts) (hv : 1 ≤ o.vcpus) (fw : Bytes) (rb : ResetBlock)
+theorem launchDigestOld_rom_err (H : Bytes → Bytes) (c : Cfg) (o : Opts) (hv : 1 ≤ o.vcpus) (fw : Bytes) (rb : ResetBlock)
     (secs : List Sec) (hp : extractFromFirmware true true fw = .ok (some rb, some secs)) (e : String)
     (hc : checkAlign (productHigh (c.width o.product)) (romBase fw.length) (fw.length % 2 ^ 32) = some e) :
-    launchDigest H c o fw = .err e := by
-  unfold launchDigest
+    launchDigestOld H c o fw = .err e := by
+  unfold launchDigestOld launchDigestBody
   rw [if_neg (by omega), hp]
   simp only
   unfold measureUefi update
   rw [hc]
 
-/-- a one-page ROM is refused for an unsupported product: `0 + 0x1000 − 0x1000 = 0 < 0xFFFFF000` -/
+/-- a one-page ROM was refused for an unsupported product (pre-repair variant), with the range error: `0 + 0x1000 − 0x1000 = 0 < 0xFFFFF000` -/
 theorem ex_unsupported_rejected (H : Bytes → Bytes) (o : Opts) (hp : o.product ≠ 1 ∧ o.product ≠ 2) (hv : 1 ≤ o.vcpus) :
-    launchDigest H genCfg o exFw = .err "range" := by
-  apply launchDigest_rom_err H genCfg o hv exFw exRb exSecs ex_parse
+    launchDigestOld H genCfg o exFw = .err "range" := by
+  apply launchDigestOld_rom_err H genCfg o hv exFw exRb exSecs ex_parse
   rw [genWidth_zero _ hp, ex_length]
   decide
 
@@ -315,11 +329,11 @@ theorem twoPage_parse : extractFromFirmware true true twoPageFw = .ok (some exRb
   parse_of _ _ (by decide +kernel) (by decide +kernel)
 
 /-- two ROM pages but one-page secrets / CPUID ranges above address 0 (the layout OVMF declares): refused for an
-    unsupported product by the FIRST iteration of the section loop, with the range-check error -/
+    unsupported product (pre-repair variant) by the FIRST iteration of the section loop, with the range-check error -/
 theorem twoPage_unsupported_rejected (H : Bytes → Bytes) (hH : ∀ x, (H x).length = 48) (o : Opts)
     (hp : o.product ≠ 1 ∧ o.product ≠ 2) (hv : 1 ≤ o.vcpus) :
-    launchDigest H genCfg o twoPageFw = .err "range" := by
-  refine launchDigest_measure_err_any H hH genCfg o hv _ exRb exSecs twoPage_parse (by rw [twoPage_length]; decide) ?_
+    launchDigestOld H genCfg o twoPageFw = .err "range" := by
+  refine launchDigestOld_measure_err_any H hH genCfg o hv _ exRb exSecs twoPage_parse (by rw [twoPage_length]; decide) ?_
     ((validateSections_ok_iff _).mpr ex_sectionsValid) _ ?_
   · rw [genWidth_zero _ hp, twoPage_length]; decide
   · intro d _
